@@ -439,7 +439,7 @@ struct Slot {
 /// text of its own
 fn show_slot(k: &str, err: &Option<String>) -> String {
     let generic = match k {
-        "int" | "usz" => Some("ERR value is not an integer or out of range"),
+        "int" | "usz" | "pos" => Some("ERR value is not an integer or out of range"),
         "flt" => Some("ERR value is not a valid float"),
         _ => None,
     };
@@ -617,6 +617,16 @@ fn describe(cx: &Cx, name: &str, body: (usize, usize)) -> Row {
                         }
                     }
                     for l in lits { attributed.insert(l); }
+                    // `let N = <integer extraction>?; if N < 1 { return Err("ERR syntax error") }`: a count that must be
+                    // at least 1 (SCAN / HSCAN / ZSCAN COUNT) — slot kind `pos`, its range text belongs to the slot
+                    if kind == "int" && xs >= 3 {
+                        if let Some((_, c)) = cx.at(xs - 3, "let $i =") {
+                            let stmt_end = (xe..be).find(|j| is_p(&t[*j], ";")).unwrap_or(be);
+                            if let Some((_, c2, ix)) = m_at_ix(t, stmt_end + 1, &format!("if {} < 1 {{ return Err ( $s", c[0]), cx.arr) {
+                                if c2[0] == "ERR syntax error" { kind = "pos".into(); attributed.insert(ix[0]); }
+                            }
+                        }
+                    }
                     kinds.push(show_slot(&kind, &err));
                 }
                 let missing = if kinds.is_empty() { "m=-".to_string() } else {
@@ -1203,7 +1213,7 @@ pub fn parse_row(line: &str) -> Row {
     r
 }
 
-const NUMERIC: &[&str] = &["int", "u64", "usz", "u32", "flt"];
+const NUMERIC: &[&str] = &["int", "u64", "usz", "u32", "flt", "pos"];
 
 /// field equality; a source-side `num` (a `.parse()` whose target type the syntax does not show) matches any
 /// numeric kind of the model with the same error text
@@ -1262,7 +1272,7 @@ fn lean_arity(a: &str) -> Option<String> {
 fn lean_arg(a: &str) -> Option<String> {
     let (k, err) = match a.split_once('!') { Some((k, e)) => (k, Some(e)), None => (a, None) };
     let kind = match k {
-        "str" | "sds" | "int" | "u64" | "flt" | "usz" | "kw" | "u32" => format!(".k .{}", k),
+        "str" | "sds" | "int" | "u64" | "flt" | "usz" | "kw" | "u32" | "pos" => format!(".k .{}", k),
         "num" => ".num".to_string(),
         _ => return None,
     };
@@ -1557,6 +1567,25 @@ theorem lua_agrees_regenerated (name : Bytes) (args : List Bytes) (c : Cmd)
     (s : Spec) (hf : findEntry table (kw name) = some (.cmd s)) (hacc : parseLua (name :: args) = .ok c) :
     parseCmd (name :: args) = .ok c ∧ (∃ r ∈ luaRows, r.name = kw name) ∧ (∃ r ∈ respRows, r.name = kw name) :=
   lua_agrees_src resp_rows_describe_model lua_rows_describe_model name args c sl hfl s hf hacc
+
+theorem regenerated_rows_definite : respRows.all SRow.definite = true := by decide +kernel
+
+/-- table-driven commands: `parseCmd` = the arity test of the regenerated row, then the body GENERATED from it -/
+theorem from_resp_dsl_is_generated (name : Bytes) (args : List Bytes) (s : Spec)
+    (hf : findEntry table (kw name) = some (.cmd s)) (hb : s.body.plainDsl = true) :
+    ∃ r ∈ respRows, r.name = kw name ∧ ∃ b, r.body? = some b ∧
+      parseCmd (name :: args) =
+        if r.arity.ok args.length then liftB (b.run args) else .error (.arity r.aerr) :=
+  resp_dsl_is_generated resp_rows_describe_model regenerated_rows_definite name args s hf hb
+
+theorem from_resp_sub_dsl_is_generated (name sub : Bytes) (args : List Bytes) (fam aerr : Bytes) (subs : List Spec)
+    (dflt : Bytes → List Bytes → Res) (s : Spec)
+    (hf : findEntry table (kw name) = some (.family fam aerr subs dflt)) (hs : findSpec subs (kw sub) = some s)
+    (hb : s.body.plainDsl = true) :
+    ∃ r ∈ respRows, r.name = fam ++ 46 :: s.name ∧ ∃ b, r.body? = some b ∧
+      parseCmd (name :: sub :: args) =
+        if r.arity.ok args.length then liftB (b.run args) else .error (.arity r.aerr) :=
+  resp_dsl_sub_is_generated resp_rows_describe_model regenerated_rows_definite name sub args fam aerr subs dflt s hf hs hb
 
 /-- non-vacuity: the regenerated tables are not empty and know SET in all three grammars -/
 theorem regenerated_tables_nonempty :
